@@ -10,6 +10,7 @@ import (
 	"context"
 	"errors"
 	"strings"
+	"sync"
 
 	jose "github.com/go-jose/go-jose/v4"
 
@@ -46,6 +47,7 @@ type TEPolicy struct {
 }
 
 func (t TEP) CreateTokenExchangeRequest(ctx context.Context, request op.TokenExchangeRequest) error {
+	t.S.observeTE("create", request)
 	if err := t.TE.CreateTokenExchangeRequest(ctx, request); err != nil {
 		return err
 	}
@@ -83,6 +85,7 @@ func (p TEPolicy) ActClaim(actor string, idToken bool) map[string]any {
 }
 
 func (t TEP) GetPrivateClaimsFromTokenExchangeRequest(ctx context.Context, request op.TokenExchangeRequest) (map[string]any, error) {
+	t.S.observeTE("claims", request)
 	claims, err := t.TE.GetPrivateClaimsFromTokenExchangeRequest(ctx, request)
 	if err != nil || t.P.Act == "" {
 		return claims, err
@@ -95,6 +98,7 @@ func (t TEP) GetPrivateClaimsFromTokenExchangeRequest(ctx context.Context, reque
 }
 
 func (t TEP) SetUserinfoFromTokenExchangeRequest(ctx context.Context, ui *oidc.UserInfo, request op.TokenExchangeRequest) error {
+	t.S.observeTE("userinfo", request)
 	if err := t.TE.SetUserinfoFromTokenExchangeRequest(ctx, ui, request); err != nil {
 		return err
 	}
@@ -144,6 +148,7 @@ type TEP struct {
 }
 
 func (t TEP) ValidateTokenExchangeRequest(ctx context.Context, request op.TokenExchangeRequest) error {
+	t.S.observeTE("validate", request)
 	asked := request.GetRequestedTokenType()
 	if err := t.TE.ValidateTokenExchangeRequest(ctx, request); err != nil {
 		return err
@@ -342,4 +347,47 @@ func (s *Store) AsStorageTEWith(p TEPolicy, fromRequest bool) op.Storage {
 		base
 		KeyOnlyRS
 	}{b, ko}
+}
+
+// TEView (round 11): what a storage hook sees of a token-exchange request through EVERY getter of
+// op.TokenExchangeRequest - the request view the library hands to the storage. Hook is the hook
+// that looked: "validate" (entry of ValidateTokenExchangeRequest, before the policy touches the
+// request), "create" (entry of CreateTokenExchangeRequest), "claims" / "userinfo" (token creation).
+type TEView struct {
+	Hook                              string
+	Subject, ClientID                 string
+	ExchangeSubject, SubjectIDOrToken string
+	SubjectType                       oidc.TokenType
+	SubjectClaims                     map[string]any
+	ExchangeActor, ActorIDOrToken     string
+	ActorType                         oidc.TokenType
+	ActorClaims                       map[string]any
+	Resources, Audience, Scopes       []string
+	Requested                         oidc.TokenType
+}
+
+var teObservers sync.Map // *Store -> func(TEView)
+
+// ObserveTokenExchange registers fn to be told what every token-exchange hook of TEP sees
+// (nil: stop). Default: nobody looks, nothing changes.
+func (s *Store) ObserveTokenExchange(fn func(TEView)) {
+	if fn == nil {
+		teObservers.Delete(s)
+		return
+	}
+	teObservers.Store(s, fn)
+}
+
+func (s *Store) observeTE(hook string, r op.TokenExchangeRequest) {
+	v, ok := teObservers.Load(s)
+	if !ok {
+		return
+	}
+	v.(func(TEView))(TEView{Hook: hook, Subject: r.GetSubject(), ClientID: r.GetClientID(),
+		ExchangeSubject: r.GetExchangeSubject(), SubjectIDOrToken: r.GetExchangeSubjectTokenIDOrToken(),
+		SubjectType: r.GetExchangeSubjectTokenType(), SubjectClaims: r.GetExchangeSubjectTokenClaims(),
+		ExchangeActor: r.GetExchangeActor(), ActorIDOrToken: r.GetExchangeActorTokenIDOrToken(),
+		ActorType: r.GetExchangeActorTokenType(), ActorClaims: r.GetExchangeActorTokenClaims(),
+		Resources: r.GetResourses(), Audience: r.GetAudience(), Scopes: append([]string(nil), r.GetScopes()...),
+		Requested: r.GetRequestedTokenType()})
 }
